@@ -443,6 +443,16 @@ func bvbin(op string, a, b *Term) *Term {
 		if b.IsConst() && b.Val == 1 {
 			return a
 		}
+		if a.IsConst() {
+			a, b = b, a
+		}
+		if b.IsConst() && b.Val&(b.Val-1) == 0 {
+			sh := 0
+			for (b.Val>>uint(sh))&1 == 0 {
+				sh++
+			}
+			return bvbin("bvshl", a, BVC(w, uint64(sh)))
+		}
 	case "bvand":
 		if zero(a) || zero(b) {
 			return BVC(w, 0)
